@@ -7,6 +7,13 @@
 //!   sp <h> <t> <i0> ; <levels>            impl: table of KhHomology::<i64>::new(l,h,t,red)   model: table of the specialised dump
 //!   rc <ring> <red> ; <link>              impl: OK | FAIL (library-side d.d=0 and grading check, rational coefficients)   model: OK
 //! levels = level # level # ... ; level = "q1 q2 .. | i j term+term , i j term ..." ; term = c*eH*eT
+//! cobordism evaluation (Model/CobEval.v, Properties/C05Cob.v) - the REAL cob.rs of the library:
+//!   ce <ring> <g> <x> <y> <h> <t> ;          closed component of genus g with x X-dots, y Y-dots:
+//!        v=CobComp::eval pe=CobComp::part_eval cpe=Cob::part_eval cev=Cob::eval lev=LcCob::eval deg chi z u s
+//!   co <ring> <kind> <g> <x> <y> <h> <t> ;   component with boundary (kind cyl|cup|cap|arc|sdl|mrg):
+//!        pe=/cpe= coefficients of the component with genus 0 and dots (0,0), (1,0), (0,1) ; s=should_part_eval
+//!   cp <ring> <h> <t> ; g x y , g x y , ...  cobordism of closed components: e=Cob::eval pe=Cob::part_eval deg n
+//!   ring: z = i64, b = BigInt, p = Z[H,T] (h, t written H, T)
 use yui::poly::{Poly, Poly2};
 use yui::{Ratio, Ring, RingOps, FF};
 use yui_homology::{ChainComplexTrait, SummandTrait};
@@ -16,6 +23,220 @@ use yui_link::Link;
 use yui_verif_harness::khutil::*;
 use yui_verif_harness::*;
 use yui::poly::Mono;
+use num_bigint::BigInt;
+use yui_kh::kh::internal::v2::cob::{Cob, CobComp, Dot, LcCob, LcCobTrait};
+use yui_kh::kh::internal::v2::tng::{Tng, TngComp};
+
+// ---------------------------------------------------------------------------------------------------
+// cobordism evaluation
+// ---------------------------------------------------------------------------------------------------
+trait Show {
+    fn show(&self) -> String;
+}
+impl Show for i64 {
+    fn show(&self) -> String { self.to_string() }
+}
+impl Show for BigInt {
+    fn show(&self) -> String { self.to_string() }
+}
+impl Show for Poly2<'H', 'T', i64> {
+    fn show(&self) -> String {
+        let mut ts: Vec<(usize, usize, i64)> = self.terms().unwrap().into_iter().filter(|x| x.2 != 0).collect();
+        ts.sort();
+        if ts.is_empty() { return "0".into(); }
+        ts.iter().map(|(eh, et, c)| format!("{}*{}*{}", c, eh, et)).collect::<Vec<_>>().join("+")
+    }
+}
+
+fn g_or_p<T>(f: impl FnOnce() -> T, show: impl FnOnce(T) -> String) -> String {
+    match guarded(f) { Some(v) => show(v), None => "P".into() }
+}
+
+/// the closed component, built through `closed` + `add_dot`; must equal the one built by `new`
+fn closed_comp(g: usize, x: usize, y: usize) -> CobComp {
+    let mut c = CobComp::closed(g);
+    for _ in 0..x { c.add_dot(Dot::X); }
+    for _ in 0..y { c.add_dot(Dot::Y); }
+    c.add_dot(Dot::None);
+    c
+}
+
+/// coefficient of the empty cobordism of a combination that must not contain any other generator
+fn show_closed_lc<R>(lc: &LcCob<R>) -> String
+where R: Ring + Show, for<'x> &'x R: RingOps<R> {
+    match lc.nterms() {
+        0 => "0".into(),
+        1 => { let (c, r) = lc.any_term().unwrap(); if c.is_empty() { r.show() } else { format!("?gen[{}]", c) } }
+        n => format!("?nterms{}", n),
+    }
+}
+
+fn ce_result<R>(g: usize, x: usize, y: usize, h: &R, t: &R, full: bool) -> String
+where R: Ring + Show, for<'x> &'x R: RingOps<R> {
+    let c = closed_comp(g, x, y);
+    let ctor = if c == CobComp::new(Tng::empty(), Tng::empty(), g, (x, y)) && c.genus() == g && c.ndots() == x + y && c.is_closed() { "" } else { " ?ctor" };
+    let v = g_or_p(|| c.eval(h, t), |v| v.show());
+    let pe = g_or_p(|| c.part_eval(h, t), |l| show_closed_lc(&l));
+    let lev = g_or_p(|| LcCob::<R>::from(Cob::from(c.clone())).eval(h, t), |v| v.show());
+    let (cpe, cev) = if full {
+        (g_or_p(|| Cob::from(c.clone()).part_eval(h, t), |l| show_closed_lc(&l)),
+         g_or_p(|| Cob::from(c.clone()).eval(h, t), |v| v.show()))
+    } else { ("-".into(), "-".into()) };
+    format!("v={} pe={} cpe={} cev={} lev={} deg={} chi={} z={} u={} s={}{}", v, pe, cpe, cev, lev,
+        g_or_p(|| c.deg(), |d| d.to_string()), g_or_p(|| c.euler_num(), |d| d.to_string()),
+        c.is_zero_cob() as u8, c.is_unit_cob() as u8, c.should_part_eval() as u8, ctor)
+}
+
+fn open_bottoms(kind: &str) -> Option<(Tng, Tng)> {
+    Some(match kind {
+        "cyl" => (Tng::from(TngComp::circ([1])), Tng::from(TngComp::circ([2]))),
+        "cup" => (Tng::empty(), Tng::from(TngComp::circ([1]))),
+        "cap" => (Tng::from(TngComp::circ([1])), Tng::empty()),
+        "arc" => (Tng::from(TngComp::arc([1, 2])), Tng::from(TngComp::arc([1, 2]))),
+        "sdl" => (Tng::new(vec![TngComp::arc([1, 2]), TngComp::arc([3, 4])]), Tng::new(vec![TngComp::arc([1, 3]), TngComp::arc([2, 4])])),
+        "mrg" => (Tng::new(vec![TngComp::circ([1]), TngComp::circ([2])]), Tng::from(TngComp::circ([3]))),
+        _ => return None,
+    })
+}
+
+fn show_open_lc<R>(lc: &LcCob<R>, src: &Tng, tgt: &Tng) -> String
+where R: Ring + Show, for<'x> &'x R: RingOps<R> {
+    let gens = [(0, 0), (1, 0), (0, 1)].map(|d| Cob::from(CobComp::new(src.clone(), tgt.clone(), 0, d)));
+    let cs: Vec<&R> = gens.iter().map(|g| lc.coeff(g)).collect();
+    let nz = cs.iter().filter(|c| !c.is_zero()).count();
+    let extra = if nz == lc.nterms() { "" } else { ",?other-generators" };
+    format!("{},{},{}{}", cs[0].show(), cs[1].show(), cs[2].show(), extra)
+}
+
+fn co_result<R>(kind: &str, g: usize, x: usize, y: usize, h: &R, t: &R) -> String
+where R: Ring + Show, for<'x> &'x R: RingOps<R> {
+    let Some((src, tgt)) = open_bottoms(kind) else { return "BAD-KIND".into() };
+    let c = CobComp::new(src.clone(), tgt.clone(), g, (x, y));
+    let pe = g_or_p(|| c.part_eval(h, t), |l| show_open_lc(&l, &src, &tgt));
+    let cpe = g_or_p(|| Cob::from(c.clone()).part_eval(h, t), |l| show_open_lc(&l, &src, &tgt));
+    format!("pe={} cpe={} s={}", pe, cpe, c.should_part_eval() as u8)
+}
+
+fn cp_result<R>(comps: &[(usize, usize, usize)], h: &R, t: &R, full: bool) -> String
+where R: Ring + Show, for<'x> &'x R: RingOps<R> {
+    let cob = Cob::new(comps.iter().map(|&(g, x, y)| closed_comp(g, x, y)));
+    let e = g_or_p(|| cob.eval(h, t), |v| v.show());
+    let pe = if full { g_or_p(|| cob.clone().part_eval(h, t), |l| show_closed_lc(&l)) } else { "-".into() };
+    format!("e={} pe={} deg={} n={}", e, pe, g_or_p(|| cob.deg(), |d| d.to_string()), cob.ncomps())
+}
+
+fn parse_comps(s: &str) -> Option<Vec<(usize, usize, usize)>> {
+    let mut v = vec![];
+    for part in s.split(',') {
+        let w: Vec<&str> = part.split_whitespace().collect();
+        if w.is_empty() { continue; }
+        if w.len() != 3 { return None; }
+        v.push((w[0].parse().ok()?, w[1].parse().ok()?, w[2].parse().ok()?));
+    }
+    Some(v)
+}
+
+/// the implementation's result line of a ce / co / cp case line (None: not such a line, or malformed)
+fn cob_case(line: &str) -> Option<String> {
+    type ZHT = Poly2<'H', 'T', i64>;
+    let (head, body) = line.split_once(';')?;
+    let w: Vec<&str> = head.split_whitespace().collect();
+    let us = |s: &str| s.parse::<usize>().ok();
+    match w.as_slice() {
+        ["ce", ring, g, x, y, h, t] => {
+            let (g, x, y) = (us(g)?, us(x)?, us(y)?);
+            Some(match *ring {
+                "z" => ce_result::<i64>(g, x, y, &h.parse().ok()?, &t.parse().ok()?, true),
+                "b" => ce_result::<BigInt>(g, x, y, &h.parse().ok()?, &t.parse().ok()?, true),
+                "p" => ce_result::<ZHT>(g, x, y, &ZHT::variable(0), &ZHT::variable(1), false),
+                _ => return None,
+            })
+        }
+        ["co", ring, kind, g, x, y, h, t] => {
+            let (g, x, y) = (us(g)?, us(x)?, us(y)?);
+            Some(match *ring {
+                "z" => co_result::<i64>(kind, g, x, y, &h.parse().ok()?, &t.parse().ok()?),
+                "b" => co_result::<BigInt>(kind, g, x, y, &h.parse().ok()?, &t.parse().ok()?),
+                _ => return None,
+            })
+        }
+        ["cp", ring, h, t] => {
+            let comps = parse_comps(body)?;
+            Some(match *ring {
+                "z" => cp_result::<i64>(&comps, &h.parse().ok()?, &t.parse().ok()?, true),
+                "b" => cp_result::<BigInt>(&comps, &h.parse().ok()?, &t.parse().ok()?, true),
+                "p" => cp_result::<ZHT>(&comps, &ZHT::variable(0), &ZHT::variable(1), false),
+                _ => return None,
+            })
+        }
+        _ => None,
+    }
+}
+
+fn emit_cob(o: &mut Out, line: String) {
+    let res = guarded(|| cob_case(&line)).flatten().unwrap_or_else(|| "PANIC-IN-IMPL".into());
+    o.case(&line, &res);
+}
+
+fn big_rand(r: &mut Rng) -> String {
+    // boundary-biased: small values, values around 2^31 / 2^63, and up to ~40 decimal digits
+    match r.below(5) {
+        0 => r.range(-3, 3).to_string(),
+        1 => (r.range(-2, 2) as i128 + if r.bool() { 1i128 << 31 } else { 1i128 << 63 } * if r.bool() { 1 } else { -1 }).to_string(),
+        2 => r.range(-1000, 1000).to_string(),
+        _ => {
+            let n = 1 + r.below(40);
+            let mut s = String::new();
+            if r.bool() { s.push('-'); }
+            s.push(char::from(b'1' + r.below(9) as u8));
+            for _ in 1..n { s.push(char::from(b'0' + r.below(10) as u8)); }
+            s
+        }
+    }
+}
+
+fn gen_cob_cases(o: &mut Out, r: &mut Rng, thorough: bool) {
+    let small = [0i64, 1, -1, 2, 3];
+    // exhaustive: every closed component with g, x, y <= 6 at every (h,t) in {0,1,-1,2,3}^2 over i64, and symbolically
+    for g in 0..=6 { for x in 0..=6 { for y in 0..=6 {
+        for h in small { for t in small { emit_cob(o, format!("ce z {} {} {} {} {} ;", g, x, y, h, t)); } }
+        emit_cob(o, format!("ce p {} {} {} H T ;", g, x, y));
+    } } }
+    // larger genus / dot numbers, arbitrary precision parameters
+    let nb = if thorough { 3000 } else { 400 };
+    for _ in 0..nb {
+        let (g, x, y) = (r.below(if thorough { 11 } else { 9 }), r.below(13), r.below(13));
+        emit_cob(o, format!("ce b {} {} {} {} {} ;", g, x, y, big_rand(r), big_rand(r)));
+    }
+    if thorough {
+        for g in 7..=9 { for x in 0..=8 { for y in 0..=8 { emit_cob(o, format!("ce p {} {} {} H T ;", g, x, y)); } } }
+    }
+    // components with boundary
+    let kinds = ["cyl", "cup", "cap", "arc", "sdl", "mrg"];
+    let pts = [(0i64, 0i64), (1, 0), (0, 1), (-1, 2), (2, 3), (3, -1)];
+    for k in kinds { for g in 0..=3 { for x in 0..=4 { for y in 0..=4 { for (h, t) in pts {
+        emit_cob(o, format!("co z {} {} {} {} {} {} ;", k, g, x, y, h, t));
+    } } } } }
+    for _ in 0..(if thorough { 1500 } else { 200 }) {
+        let k = *r.pick(&kinds);
+        emit_cob(o, format!("co b {} {} {} {} {} {} ;", k, r.below(8), r.below(10), r.below(10), big_rand(r), big_rand(r)));
+    }
+    // cobordisms of several closed components (Cob::new sorts them)
+    for i in 0..(if thorough { 4000 } else { 600 }) {
+        let n = r.below(5) as usize;
+        let comps: Vec<String> = (0..n).map(|_| {
+            // mostly components that are neither zero nor unit cobordisms, so that products are non-zero
+            if r.chance(3, 4) { let g = 1 + 2 * r.below(3); format!("{} {} {}", g, r.below(3), r.below(3)) }
+            else { format!("{} {} {}", r.below(5), r.below(5), r.below(5)) }
+        }).collect();
+        let body = comps.join(" , ");
+        match i % 3 {
+            0 => emit_cob(o, format!("cp z {} {} ; {}", r.pick(&small), r.pick(&small), body)),
+            1 => emit_cob(o, format!("cp b {} {} ; {}", big_rand(r), big_rand(r), body)),
+            _ => emit_cob(o, format!("cp p H T ; {}", body)),
+        }
+    }
+}
 
 trait Dump {
     /// terms (eH, eT, integer coefficient); None if a coefficient is not integral
@@ -166,6 +387,11 @@ fn main() {
             // complexes are dumped into the case line itself: replaying re-checks the recorded dump
             let mut o = Out::new(&out);
             for l in read_lines(&file) {
+                if l.starts_with("ce ") || l.starts_with("co ") || l.starts_with("cp ") {
+                    // cobordism evaluation cases are re-run on the library
+                    emit_cob(&mut o, l.clone());
+                    continue;
+                }
                 let exp = if l.starts_with("sp ") { "RECORDED-DUMP" } else { "OK" };
                 o.case(&l, exp);
             }
@@ -174,6 +400,7 @@ fn main() {
         Mode::Gen { seed, thorough, out } => {
             let mut o = Out::new(&out);
             let mut r = Rng::new(seed);
+            { let mut rc = r.fork(); gen_cob_cases(&mut o, &mut rc, thorough); }
             let nmax = if thorough { 11 } else { 8 };
             let mut links: Vec<Link> = vec![Link::empty(), Link::unknot()];
             for (_, pd) in table_knots() {
